@@ -692,9 +692,10 @@ void play(const gen::Game& g)
         else if (P.fen() != N.fen())
         {
             rec.count("game-abandoned:engine-position-diverged(C02 territory)");
-            // the game itself is legal, so the moves the engine now generates are still C01's business:
-            // judge this one position (what a user sees after `position ... moves ...`), then stop
-            if (PROP == "C01")
+            // the game itself is legal, so what the engine derives from the position it now holds (its move list,
+            // its book key) is still C01's / C18's business: judge this one position - what a user sees after
+            // `position ... moves ...` - then stop
+            if (PROP == "C01" || PROP == "C18")
             {
                 GameHist tmp;
                 visit(P, N, tmp, cls, g.tag + ":after-divergent-do_move");
